@@ -278,7 +278,7 @@ void SAFE(zzRedMont)(word a[], const word mod[], size_t n,
 	}
 	ASSERT(wwIsZero(a, n));
 	// a <- a / B^n, a >= mod?
-	for (i = 0; i < n; ++i)
+	for (w = 1, i = 0; i < n; ++i)
 	{
 		a[i] = a[n + i];
 		w &= wordEq01(mod[i], a[i]);
@@ -384,7 +384,7 @@ void SAFE(zzRedCrandMont)(word a[], const word mod[], size_t n,
 	// a <- a - borrow * B^{n + 1}
 	carry -= zzSubW2(a + n + 1, n - 1, borrow);
 	// a <- a / B^n, a >= mod?
-	for (i = 0; i < n; ++i)
+	for (w = 1, i = 0; i < n; ++i)
 	{
 		a[i] = a[n + i];
 		w &= wordEq01(mod[i], a[i]);
